@@ -10,13 +10,15 @@ import shutil
 import tempfile
 
 from .. import common as C
+from .. import core
 from ..obs import observe_call, obs_term
+from . import asm
 
 ID = "C13"
-HEADER = "From A816 Require Import Oracle.C13o."
+HEADER = "From A816 Require Import Oracle.Coreo Model.Ips Oracle.C13o.\n" + asm.TABLES
 CASE_TYPE = "case"
-CHECK = "check"
-MODEL_VIEW = "model_view"
+CHECK = "check T"
+MODEL_VIEW = "model_view T"
 SHARD = 48
 THEOREMS = ["C13_roundtrip", "C13_roundtrip_trailing", "C13_reject_header", "C13_reject_truncated", "C13_fuel",
             "C13_writer_reader", "C13_transparent", "C13_reemitted", "C13_codegen"]
@@ -24,7 +26,9 @@ RULE = ("IncludeIpsNode(path, Resolver(), delta) on patch files written to a scr
         "harness from record lists (plain incl. 65535-byte, run-length incl. run 65535, adjacent/overlapping, offsets at "
         "0, 0xFFFFFF and around 0x454F46, data containing 'EOF'), files produced by the real IPSWriter, files whose EOF "
         "marker sits across a read-buffer boundary (4096/8192/...), every strict prefix of small patches, damaged or missing "
-        "headers; deltas None, 0, +-1, +-0x200, -offset, +-2^40; node.blocks or the exception compared with the model; "
+        "headers; deltas None, 0, +-1, +-0x200, -offset, +-2^40; node.blocks or the exception compared with the model; plus the "
+        "directive placed inside programs (start/middle/end of a run, after @= to ROM and RAM, between *=, in blocks/macros/loops) "
+        "under the whole-assembly model and the writer-protocol oracle; "
         "non-trivial when the file has at least one record; distinct by (file, delta)")
 PROVED_NOTE = ("proved for all record lists and all deltas (induction): reading PATCH + encoded valid records + EOF yields "
                "every record's bytes at offset + delta in order; a file without the PATCH header and every strict prefix of a "
@@ -226,10 +230,33 @@ def cases(ctx):
     # 5. bytes after the marker (no spec claim; model and implementation ignore them)
     for tail in (b"\0", b"\x12\x34\x56", b"EOF", good):
         add("trailing", good + tail, 1)
+    # 9. the directive inside a program: every placement (start / middle / end of a run, after @= to ROM and RAM, between
+    #    two *=, inside a block / macro / loop), any records and delta; the surrounding output must be unaffected
+    def patch_of(recs):
+        return list(_patch([("plain", o, d) for o, d in recs]))
+    placements = [
+        ".db 0xA1\nlda.w 0x1234\nmid:\n.db 0xA2\n{INC}after:\n.db 0xA3\nrts\nlast:\n.dl mid\n.dl after\n",
+        "{INC}.db 1, 2\n", ".db 1, 2\n{INC}", ".db 1\n{INC}*=ORG2\n.db 2\n{INC}.db 3\n",
+        ".db 1\n@=0x7e2000\n.db 2\n{INC}.db 3\nrts\n", "lda.w 0x1234\n@=RELOC\nlda.w 0x1234\n{INC}lda.w 0x1234\nrts\n",
+        ".db 1\n{\n.db 2\n{INC}.db 3\n}\n.db 4\n", ".macro zz_p() {\n.db 7\n{INC}.db 8\n}\n.db 1\nzz_p()\n.db 2\n",
+        ".for zz_i := 0, 2 {\n.db zz_i\n{INC}}\n.db 9\n", ".if 1 {\n.db 5\n{INC}}\n.db 6\n",
+    ]
+    for rom, org, reloc in (("low", 0x018000, 0x80A000), ("high", 0x410000, 0x428000)):
+        for recs, delta in (([(0x20000, b"\xde\xad\xbe\xef")], 0), ([(0x300, b"ab"), (0x500, b"cdef")], -0x200),
+                            ([(0x200, b"zz")], -0x200), ([(0, b"q")], 0x10), ([(5, b"12"), (5, b"34")], 0), ([], 0)):
+            for body in placements:
+                if tier == "quick" and rng.random() < 0.4:
+                    continue
+                src = (f"*={org:#08x}\n" + body.replace("{INC}", f".include_ips 'p.ips', {delta}\n")
+                       .replace("ORG2", f"{org + 0x10000:#08x}").replace("RELOC", f"{reloc:#08x}"))
+                out.append({"kind": "in-program", "prog": True, "rom": rom, "trace": True, "files": {"p.ips": patch_of(recs)},
+                            "spec": {"t": "blocks", "high": rom == "high"}, "src": src})
     return out
 
 
 def observe(case):
+    if case.get("prog"):
+        return core.observe(case)
     from a816.parse.ast.expression import expr_to_ast
     from a816.parse.nodes import IncludeIpsNode
     from a816.symbols import Resolver
@@ -251,12 +278,16 @@ def _runs(r) -> str:
 
 
 def coq_term(case, ob):
+    if case.get("prog"):
+        return f"CP ({core.coq_term(case, ob)})"
     delta = case["delta"] or 0
     return (f"CR {_runs(case['file'])} {C.z(delta)} "
             f"{obs_term(ob, lambda bl: '[' + ';'.join(f'({C.z(a)},{_runs(r)})' for a, r in bl) + ']')}")
 
 
 def nontrivial_key(case, ob):
+    if case.get("prog"):
+        return core.nontrivial_key(case, ob)
     if "ok" in ob and not ob["ok"]:
         return None
     return [C.short_hash(case["file"]), case["delta"]]
